@@ -287,7 +287,7 @@ def auth_block(r, cwt=True):
 SEV = sorted(R.SEVERABLE_SEQ)
 
 
-def envelope(r, depth=0, maxdep=2, cwt=True, p_dep=0.3, sev_bias=None, uniq=""):
+def envelope(r, depth=0, maxdep=2, cwt=True, p_dep=0.3, sev_bias=None, uniq="", shared=None):
     """one envelope description; nested dependencies are inline dicts (unique names through `uniq`)"""
     comps = [comp_id(r) for _ in range(r.randrange(0, 4))]
     n = len(comps)
@@ -362,8 +362,14 @@ def envelope(r, depth=0, maxdep=2, cwt=True, p_dep=0.3, sev_bias=None, uniq=""):
         env["suit-integrated-payloads"] = pl
     if depth < maxdep and r.random() < p_dep:
         deps = {}
-        for i in range(r.randrange(1, 3)):
-            deps[f"#dep{uniq}{depth}_{i}"] = envelope(r, depth + 1, maxdep, cwt, p_dep, sev_bias, uniq + f"{i}")
+        if shared is None:
+            # decided once per hierarchy: dependency names are unique within ONE envelope only, so different branches
+            # (or different levels) may use the SAME name for DIFFERENT sub-envelopes
+            shared = r.choice(["depth", "flat"]) if r.random() < 0.25 else False
+        p_child = max(p_dep, 0.6) if shared else p_dep
+        for i in range(r.randrange(1, 3) if not shared else 2):
+            name = f"#dep{uniq}{depth}_{i}" if not shared else (f"#dep{depth}_{i}" if shared == "depth" else f"#dep_{i}")
+            deps[name] = envelope(r, depth + 1, maxdep, cwt, p_child, sev_bias, uniq + f"{i}", shared)
         env["suit-integrated-dependencies"] = deps
         if r.random() < 0.3 and pl:
             # dependencies before payloads
